@@ -16,23 +16,26 @@ def unq(q):
     return Fraction(q['s'] * n, d or 1)
 
 
-def user_type(key, rows, form):
-    """A fresh quantity type with units x, y, z and a TableConverter over `rows`."""
+def user_type(key, rows, form, rows2=None):
+    """A fresh quantity type with units x, y, z and a TableConverter over `rows` (and a second one, registered
+    later, over `rows2`)."""
     from quantity import Quantity, QuantityMeta, TableConverter
     if key in _TYPES:
         return _TYPES[key]
     n = len(_TYPES)
     cls = QuantityMeta('TT%d' % n, (Quantity,), {})
     units = {s: cls.new_unit('%s_%d' % (s, n)) for s in ('x', 'y', 'z')}
-    spec = [(units[r['f']], units[r['t']], mk_amount([unq(r['fac']).numerator, unq(r['fac']).denominator], r.get('frep', 'frac')),
-             mk_amount([unq(r['off']).numerator, unq(r['off']).denominator], r.get('orep', 'dec'))) for r in rows]
-    if form == 'map':
-        conv = TableConverter({(a, b): (f, o) for a, b, f, o in spec})
-    elif form == 'iter':
-        conv = TableConverter(iter(spec))
-    else:
-        conv = TableConverter(spec)
-    cls.register_converter(conv)
+    for k, rws in enumerate([rows] + ([rows2] if rows2 is not None else [])):
+        spec = [(units[r['f']], units[r['t']], mk_amount([unq(r['fac']).numerator, unq(r['fac']).denominator], r.get('frep', 'frac')),
+                 mk_amount([unq(r['off']).numerator, unq(r['off']).denominator], r.get('orep', 'dec'))) for r in rws]
+        fm = form if k == 0 else 'list'
+        if fm == 'map':
+            conv = TableConverter({(a, b): (f, o) for a, b, f, o in spec})
+        elif fm == 'iter':
+            conv = TableConverter(iter(spec))
+        else:
+            conv = TableConverter(spec)
+        cls.register_converter(conv)
     _TYPES[key] = (cls, units)
     return _TYPES[key]
 
@@ -47,7 +50,7 @@ def run_case(c):
             cls = P.Temperature
             units = {k: Unit(v) for k, v in TALIAS.items()}
         else:
-            cls, units = user_type(c['tkey'], c['rows'], c.get('form', 'list'))
+            cls, units = user_type(c['tkey'], c['rows'], c.get('form', 'list'), c.get('rows2'))
         if c['op'] == 'tdoc':
             return ev
 
